@@ -11,14 +11,14 @@ Module D := Draco.Model.Edgebreaker.
 
 (** ** the classes *)
 Definition is_ERL (y : Z) : bool := ((y =? 3) || (y =? 5) || (y =? 7))%Z.
-(** only E / R / L symbols (triangle strips and fans), every start configuration on a mesh boundary *)
-Definition class_ERL (o : enc_out) : bool := forallb is_ERL (o_syms o) && forallb negb (o_bits o).
+(** only E / R / L symbols (triangle strips and fans) *)
+Definition class_ERL (o : enc_out) : bool := forallb is_ERL (o_syms o).
 (** + symbol C (discs) *)
 Definition is_CERL (y : Z) : bool := ((y =? 0) || (y =? 3) || (y =? 5) || (y =? 7))%Z.
-Definition class_CERL (o : enc_out) : bool := forallb is_CERL (o_syms o) && forallb negb (o_bits o).
+Definition class_CERL (o : enc_out) : bool := forallb is_CERL (o_syms o).
 Lemma class_ERL_CERL o : class_ERL o = true -> class_CERL o = true.
 Proof.
-  unfold class_ERL, class_CERL. intros H. apply andb_prop in H. destruct H as [A B]. rewrite B, andb_true_r.
+  unfold class_ERL, class_CERL. intros A.
   rewrite forallb_forall in *. intros y Hy. specialize (A y Hy). unfold is_ERL, is_CERL in *. lia.
 Qed.
 (** the vertices the decoder creates fit the declared bound (3 per E, 1 per R / L) *)
@@ -34,6 +34,168 @@ Lemma count_true_0 l : forallb negb l = true -> count_occ bool_dec l true = 0.
 Proof.
   induction l as [|b l IH]; intros H; cbn in *; auto. apply andb_prop in H. destruct H as [Hb Hl].
   destruct b; [discriminate|]. destruct (bool_dec false true); [discriminate|auto].
+Qed.
+
+(** * the decoder's stack after the symbol loop, from the runs of the encoder (histories without S) *)
+Lemma tops_S Y k y : nth_error Y k = Some y ->
+  tops Y (S k) = if (y =? 7)%Z then k :: tops Y k else if (y =? 1)%Z then k :: tl (tl (tops Y k)) else k :: tl (tops Y k).
+Proof. intros E. cbn [tops]. rewrite E. reflexivity. Qed.
+
+Lemma tops_head' Y k : 1 <= k <= length Y -> exists T, tops Y k = (k - 1) :: T.
+Proof.
+  intros Hk. destruct k as [|k']; [lia|]. destruct (nth_error Y k') as [y|] eqn:E.
+  - rewrite (tops_S _ _ _ E). replace (S k' - 1) with k' by lia. destruct (y =? 7)%Z; [eauto|]. destruct (y =? 1)%Z; eauto.
+  - apply nth_error_None in E. lia.
+Qed.
+
+Lemma tops_block Yr Y : ~ In 7%Z Yr -> ~ In 1%Z Yr -> forall k, 1 <= k <= S (length Yr) -> tops ((7%Z :: Yr) ++ Y) k = [k - 1].
+Proof.
+  intros N7 N1. induction k as [|k IH]; intros Hk; [lia|].
+  destruct (Nat.eq_dec k 0) as [->|Nk].
+  - rewrite (tops_S _ 0 7%Z); auto.
+  - assert (E : nth_error ((7%Z :: Yr) ++ Y) k = Some (nth (k - 1) Yr 0%Z)).
+    { destruct k; [lia|]. cbn [app nth_error]. rewrite nth_error_app1 by lia. replace (S k - 1) with k by lia. apply nth_error_nth'. lia. }
+    assert (Hin : In (nth (k - 1) Yr 0%Z) Yr) by (apply nth_In; lia).
+    rewrite (tops_S _ _ _ E), IH by lia.
+    destruct (nth (k - 1) Yr 0 =? 7)%Z eqn:E7; [exfalso; apply N7; apply Z.eqb_eq in E7; rewrite <- E7; auto|].
+    destruct (nth (k - 1) Yr 0 =? 1)%Z eqn:E1; [exfalso; apply N1; apply Z.eqb_eq in E1; rewrite <- E1; auto|].
+    cbn [tl]. f_equal. lia.
+Qed.
+
+Lemma tops_app Yr Y : ~ In 7%Z Yr -> ~ In 1%Z Yr -> (Y = [] \/ exists Y', Y = 7%Z :: Y') -> ~ In 1%Z Y ->
+  forall k, k <= length Y ->
+  tops ((7%Z :: Yr) ++ Y) (S (length Yr) + k) = map (fun j => S (length Yr) + j) (tops Y k) ++ [length Yr].
+Proof.
+  intros N7 N1 HY NY. induction k as [|k IH]; intros Hk.
+  - rewrite Nat.add_0_r, tops_block by (auto; lia). cbn. f_equal. lia.
+  - replace (S (length Yr) + S k) with (S (S (length Yr) + k)) by lia.
+    assert (Ek : nth_error ((7%Z :: Yr) ++ Y) (S (length Yr) + k) = Some (nth k Y 0%Z)).
+    { rewrite nth_error_app2 by (cbn [length]; lia). cbn [length]. replace (S (length Yr) + k - S (length Yr)) with k by lia.
+      apply nth_error_nth'. lia. }
+    assert (Ek' : nth_error Y k = Some (nth k Y 0%Z)) by (apply nth_error_nth'; lia).
+    rewrite (tops_S _ _ _ Ek), (tops_S _ _ _ Ek'), IH by lia.
+    assert (Hin : In (nth k Y 0%Z) Y) by (apply nth_In; lia).
+    destruct (nth k Y 0 =? 7)%Z eqn:E7; [reflexivity|].
+    destruct (nth k Y 0 =? 1)%Z eqn:E1; [exfalso; apply NY; apply Z.eqb_eq in E1; rewrite <- E1; auto|].
+    assert (Kp : 1 <= k).
+    { destruct k; [|lia]. exfalso. destruct HY as [->|(Y' & ->)]; [cbn in Hk; lia|]. cbn in E7. discriminate. }
+    destruct (tops_head' Y k ltac:(lia)) as (T & ET). rewrite ET. cbn [map app tl]. reflexivity.
+Qed.
+
+Lemma last_nth_nat (l : list nat) : l <> [] -> last l 0 = nth (length l - 1) l 0.
+Proof.
+  induction l as [|a l IH]; [congruence|]. destruct l as [|a' l']; [reflexivity|]. intros _.
+  change (last (a :: a' :: l') 0) with (last (a' :: l') 0). rewrite IH by discriminate. cbn [length].
+  replace (S (S (length l')) - 1) with (S (S (length l') - 1)) by lia. reflexivity.
+Qed.
+
+Lemma cnt_true_app l1 l2 : cnt_true (l1 ++ l2) = cnt_true l1 + cnt_true l2.
+Proof. unfold cnt_true. apply count_occ_app. Qed.
+Lemma cnt_true_rev l : cnt_true (rev l) = cnt_true l.
+Proof. unfold cnt_true. apply count_occ_rev. Qed.
+
+(** the run structure in index form *)
+Definition runs_idx (opp : list (option nat)) (IP : nat -> Prop) (bits : list bool) (inits P : list nat) (Y : list Z) : Prop :=
+  (Y = [] \/ exists Y', Y = 7%Z :: Y') /\ length P = length Y /\ length inits = cnt_true bits /\
+  length (tops Y (length Y)) = length bits /\
+  forall i j, nth_error (tops Y (length Y)) i = Some j -> nth i (rev bits) false = true ->
+    j < length Y /\
+    exists ic, nth_error (rev inits) (cnt_true (firstn i (rev bits))) = Some ic /\ opp_at opp ic = Some (nth j P 0) /\ IP ic.
+
+Lemma RUNS_idx opp IP bits inits P Y : RUNS opp IP bits inits P Y -> ~ In 1%Z Y -> runs_idx opp IP bits inits P Y.
+Proof.
+  induction 1 as [|b bits inits inits' P Y Pn Yn R IH Np Ln Sh Hb]; intros NS.
+  - unfold runs_idx. cbn. split; auto. split; auto. split; auto. split; auto. intros i j X. destruct i; discriminate.
+  - assert (NS1 : ~ In 1%Z Yn) by (intro X; apply NS; apply in_or_app; auto).
+    assert (NS2 : ~ In 1%Z Y) by (intro X; apply NS; apply in_or_app; auto).
+    destruct (Sh NS1) as (Yr & -> & N7). destruct (IH NS2) as (HY & LP & LI & LT & HF).
+    assert (N1r : ~ In 1%Z Yr) by (intro X; apply NS1; right; auto).
+    cbn [length] in Ln.
+    assert (ET : tops ((7%Z :: Yr) ++ Y) (length ((7%Z :: Yr) ++ Y)) = map (fun j => S (length Yr) + j) (tops Y (length Y)) ++ [length Yr]).
+    { rewrite app_length. cbn [length]. apply tops_app; auto. }
+    unfold runs_idx. rewrite ET. split; [right; cbn [app]; eauto|]. split; [rewrite !app_length; cbn [length]; lia|].
+    assert (LI' : length inits' = cnt_true (b :: bits)).
+    { unfold cnt_true in *. destruct b.
+      - destruct Hb as (ic & -> & _). rewrite count_occ_cons_eq by reflexivity. cbn [length]. lia.
+      - subst inits'. rewrite count_occ_cons_neq by discriminate. auto. }
+    split; auto. split; [rewrite app_length, map_length; cbn [length]; lia|].
+    intros i j Ei Bi. cbn [rev] in Bi. cbn [rev].
+    assert (Li : i < length (tops Y (length Y)) + 1).
+    { assert (X : i < length (map (fun j => S (length Yr) + j) (tops Y (length Y)) ++ [length Yr])) by (apply nth_error_Some; congruence).
+      rewrite app_length, map_length in X. cbn in X. lia. }
+    destruct (Nat.lt_ge_cases i (length (tops Y (length Y)))) as [Lo|Hi].
+    + (* an older run *)
+      rewrite nth_error_app1 in Ei by (rewrite map_length; auto). rewrite nth_error_map in Ei.
+      destruct (nth_error (tops Y (length Y)) i) as [j0|] eqn:Ej0; [|discriminate]. inversion Ei; subst j. clear Ei.
+      rewrite app_nth1 in Bi by (rewrite rev_length; lia).
+      destruct (HF i j0 Ej0 Bi) as (Hj0 & ic & A1 & A2 & A3).
+      split; [rewrite app_length; cbn [length]; lia|].
+      exists ic. rewrite firstn_app, rev_length. replace (i - length bits) with 0 by lia. cbn [firstn]. rewrite app_nil_r.
+      split; [|split; auto].
+      * assert (X : cnt_true (firstn i (rev bits)) < length (rev inits)) by (apply nth_error_Some; congruence).
+        destruct b; [destruct Hb as (ic' & -> & _); cbn [rev]; rewrite nth_error_app1 by auto; auto|subst inits'; auto].
+      * rewrite app_nth2 by lia. replace (S (length Yr + j0) - length Pn) with j0 by lia. auto.
+    + (* the newest run *)
+      assert (i = length (tops Y (length Y))) by lia. subst i.
+      rewrite nth_error_app2 in Ei by (rewrite map_length; auto). rewrite map_length, Nat.sub_diag in Ei. cbn in Ei. inversion Ei; subst j.
+      rewrite app_nth2 in Bi by (rewrite rev_length; lia). rewrite rev_length in Bi. replace (length (tops Y (length Y)) - length bits) with 0 in Bi by lia.
+      cbn in Bi. subst b. destruct Hb as (ic & -> & Eo & Ip).
+      split; [rewrite app_length; cbn [length]; lia|].
+      exists ic. rewrite LT, firstn_app, rev_length, Nat.sub_diag. cbn [firstn]. rewrite app_nil_r, <- (rev_length bits), firstn_all, cnt_true_rev.
+      split; [|split; auto].
+      * cbn [rev]. rewrite nth_error_app2 by (rewrite rev_length; lia). rewrite rev_length. replace (cnt_true bits - length inits) with 0 by lia. reflexivity.
+      * rewrite app_nth1 by lia. rewrite Eo. f_equal. replace (length Yr) with (length Pn - 1) by lia.
+        apply last_nth_nat; auto.
+Qed.
+
+Lemma nth_error_skipn {A} (l : list A) n m x : nth_error (skipn n l) m = Some x -> nth_error l (n + m) = Some x.
+Proof. revert l. induction n as [|n IH]; intros [|a l] H; cbn in *; auto; try (destruct m; discriminate). Qed.
+
+(** [start_ok] from the encoder's run facts *)
+Lemma start_ok_of_facts c2v opp nf Q Y B : length c2v = 3 * nf -> opp_ok c2v opp ->
+  (forall j, j < length Q -> nth j Q 0 < 3 * nf /\ is_degenerated c2v (nth j Q 0 / 3) = false) ->
+  NoDup (map (fun c => c / 3) Q) ->
+  (forall f, f < nf -> is_degenerated c2v f = false -> In f (map (fun c => c / 3) Q)) ->
+  length Y + cnt_true B = length Q -> ~ In 1%Z Y ->
+  RUNS opp (IFc' c2v opp nf) (rev B) (rev (skipn (length Y) Q)) (firstn (length Y) Q) Y ->
+  (forall m1 m2, m1 < m2 -> length Y + m2 < length Q -> forall x1 x2, x1 < 3 * nf -> x2 < 3 * nf ->
+     x1 / 3 = nth (length Y + m1) Q 0 / 3 -> x2 / 3 = nth (length Y + m2) Q 0 / 3 -> vtx c2v x1 <> vtx c2v x2) ->
+  start_ok c2v opp nf Q Y B.
+Proof.
+  intros Hlen OK Qrng Qnd Comp L NS R DJ. set (ns := length Y) in *.
+  destruct (RUNS_idx _ _ _ _ _ _ R NS) as (_ & _ & _ & LT & HF). fold ns in LT, HF.
+  rewrite rev_length in LT. rewrite !rev_involutive in HF.
+  unfold start_ok. fold ns. split; auto. split; auto.
+  intros i j Ej Bi. cbv zeta. destruct (HF i j Ej Bi) as (Hj & ic & A1 & A2 & A3).
+  set (m0 := cnt_true (firstn i B)) in *. set (m := ns + m0).
+  apply nth_error_skipn in A1. fold m in A1.
+  assert (Hm : m < length Q) by (apply nth_error_Some; congruence).
+  assert (Eic : nth m Q 0 = ic) by (apply nth_error_nth; auto).
+  assert (E0 : eco Q m 0 = ic) by (unfold eco; cbn [rot]; auto).
+  assert (Ejq : nth j (firstn ns Q) 0 = nth j Q 0).
+  { rewrite <- (firstn_skipn ns Q) at 2. rewrite app_nth1; auto. rewrite firstn_length_le; lia. }
+  rewrite Ejq in A2. split; [rewrite E0; exact A2|].
+  destruct A3 as (Hic & HI).
+  assert (CI : forall r, r < 3 -> Cint_t c2v opp nf Q m (eco Q m r)).
+  { intros r Hr x Hx Nx Vx.
+    assert (Ft : eco Q m r / 3 = ic / 3) by (unfold eco; rewrite rot_face, Eic; auto).
+    assert (Ht : eco Q m r < 3 * nf).
+    { unfold eco. rewrite Eic. destruct r as [|[|r]]; cbn [rot]; auto using next_lt, prev_lt. }
+    destruct (HI _ Ht Ft) as (_ & HX). destruct (HX x Hx Nx Vx) as (X1 & X2). split; auto. split; auto.
+    intros Ne.
+    assert (Hf : x / 3 < nf) by (apply Nat.div_lt_upper_bound; lia).
+    destruct (In_nth _ _ 0 (Comp _ Hf Nx)) as (j' & Hj' & Ej'). rewrite map_length in Hj'.
+    assert (M : nth j' (map (fun c => c / 3) Q) 0 = nth j' Q 0 / 3) by (exact (map_nth (fun c => c / 3) Q 0 j')).
+    rewrite M in Ej'.
+    assert (Hlt : j' < m).
+    { destruct (lt_eq_lt_dec j' m) as [[Lo|Eq]|Gt]; auto.
+      - subst j'. exfalso. apply Ne. apply (same_face_vertex c2v); auto. rewrite <- Ej', Eic, Ft. auto.
+        destruct (Qrng m Hm) as [_ Dm]. rewrite Ft, <- Eic. auto.
+      - exfalso. apply (DJ m0 (j' - ns)) with (x1 := eco Q m r) (x2 := x); auto; try lia.
+        + fold m. rewrite Eic. auto.
+        + replace (ns + (j' - ns)) with j' by lia. auto. }
+    symmetry in Ej'. destruct (face_rot _ _ Ej') as (r' & Hr' & Er'). exists j', r'. auto. }
+  split; [apply CI; lia|]. split; apply CI; lia.
 Qed.
 
 Lemma efact_script c2v opp nf Q Y k y : length c2v = 3 * nf -> length Y <= length Q ->
@@ -72,23 +234,23 @@ Theorem ebsim_roundtrip_CERL_core c2v opp nf nv niso ndeg o rm maxv :
   exists n s, D.eb_core (3 * F) maxv F rm (rev (o_syms o)) (o_events o) (D.bits_of_list (o_bits o)) = D.Ok (n, s) /\
               eb_iso c2v opp (o_pcc o) (D.c2v s) (D.copp s).
 Proof.
-  intros Hlen OK Hv FAN E Cl Hm F. unfold class_CERL in Cl. apply andb_prop in Cl. destruct Cl as [Cs Cb].
-  destruct (encode_facts_wf c2v opp nf nv niso ndeg o Hlen OK Hv FAN E) as (L & ND & Fk & Ev).
+  intros Hlen OK Hv FAN E Cs Hm F. unfold class_CERL in Cs.
+  destruct (encode_facts_wf c2v opp nf nv niso ndeg o Hlen OK Hv FAN E) as (L & ND & Fk & Ev & RU & DJ).
   destruct (eb_encode_total c2v opp nf nv niso ndeg Hlen OK Hv FAN) as [T1 T2].
   destruct (Nat.eq_dec nf ndeg) as [Eq|Ne]; [rewrite (T1 Eq) in E; discriminate|].
   destruct (T2 Ne) as (o' & E' & OO & _). rewrite E in E'. inversion E'; subst o'. clear E' T1 T2.
   destruct OO as (_ & Rng & Comp & _).
-  rewrite (count_true_0 _ Cb), Nat.add_0_r in L.
   assert (NS : ~ In 1%Z (rev (o_syms o))).
   { intro X. apply in_rev in X. rewrite forallb_forall in Cs. specialize (Cs _ X). discriminate. }
   rewrite (Ev NS).
-  apply (dec_roundtrip_noS_boundary c2v opp nf Hlen OK (o_pcc o)); auto.
-  - intros j Hj. rewrite Forall_forall in Rng. apply Rng. apply nth_In. auto.
+  assert (Rq : forall j, j < length (o_pcc o) -> nth j (o_pcc o) 0 < 3 * nf /\ is_degenerated c2v (nth j (o_pcc o) 0 / 3) = false).
+  { intros j Hj. rewrite Forall_forall in Rng. apply Rng. apply nth_In. auto. }
+  apply (dec_roundtrip_noS c2v opp nf Hlen OK (o_pcc o)); auto.
   - lia.
   - intros j Hj. destruct (nth_error (rev (o_syms o)) j) as [y|] eqn:Ey; [|apply nth_error_None in Ey; lia].
     apply (efact_script c2v opp nf _ _ j y); auto; try lia.
     rewrite forallb_forall in Cs. apply Cs. apply in_rev. eapply nth_error_In; eauto.
-  - apply bits_all_false; auto.
+  - apply start_ok_of_facts; auto.
 Qed.
 
 Theorem ebsim_roundtrip_ERL_core c2v opp nf nv niso ndeg o rm maxv :
@@ -113,8 +275,8 @@ Proof.
   destruct (eb_encode_ct_counts faces t o H E) as (_ & _ & _ & _ & _ & Nf & _).
   assert (Ev : o_events o = []).
   { destruct (encode_facts_wf _ _ _ _ _ _ o L OK Hv FAN E) as (_ & _ & _ & Ev). apply Ev.
-    unfold class_CERL in Cl. apply andb_prop in Cl. destruct Cl as [Cs _].
-    intro X. apply in_rev in X. rewrite forallb_forall in Cs. specialize (Cs _ X). discriminate. }
+    unfold class_CERL in Cl.
+    intro X. apply in_rev in X. rewrite forallb_forall in Cl. specialize (Cl _ X). discriminate. }
   destruct (eb_encode_ct_guards faces t o rm H E Sz G3) as (Eq & _).
   { rewrite Ev. cbn. lia. }
   rewrite Eq. rewrite <- Nf.
@@ -134,14 +296,15 @@ Proof. intros. apply (ebsim_roundtrip_CERL faces t o rm); auto. apply class_ERL_
       - SIM k d : the decoder has created exactly the faces of Q[0..k-1] (Q = o_pcc, the corners in decoder order), with
         Opposite / vertices as in [SIM];
       - these are exactly the faces the encoder has NOT processed yet:  cf_corner :: pcc = Q[k-1 .. ns-1];
-      - the decoder's active corner (top of active_corner_stack) is the tip corner 3(k-1) of the face of [cf_corner cf];
+      - the decoder's active_corner_stack lists the tip corners 3j of the faces [tops Y k] (computed from the symbols: E pushes,
+        C / R / L replace the top, S merges the two top entries); its top is the face of [cf_corner cf];
       - W, FI: the decoder's own invariants; no pending split event, no invalidated vertex (classes without S). *)
-Definition sim2 (c2v : list nat) (opp : list (option nat)) (Q : list nat) (ns : nat) (NC maxv : Z) (cf : cfg) (d : D.st) : Prop :=
+Definition sim2 (c2v : list nat) (opp : list (option nat)) (Q : list nat) (Y : list Z) (ns : nat) (NC maxv : Z) (cf : cfg) (d : D.st) : Prop :=
   let i := length (syms (cf_st cf)) in
   let k := ns - i in
   SIM c2v opp Q k d /\
   cf_corner cf :: pcc (cf_st cf) = skipn (k - 1) (firstn ns Q) /\
-  (exists rest, D.stack d = dco (k - 1) 0 :: rest) /\
+  (D.stack d = map (fun j => dco j 0) (tops Y k) /\ exists T, tops Y k = (k - 1) :: T) /\
   Draco.Proofs.Edgebreaker_proofs.W NC maxv (Z.of_nat k) d /\ Draco.Proofs.Edgebreaker_fan_proofs.FI (Z.of_nat k) d /\
   D.events d = [] /\ D.invalid d = [].
 
@@ -154,18 +317,18 @@ Theorem ebsim_trace_CERL c2v opp nf nv niso ndeg o tr rm maxv :
   forall i cf, nth_error tr i = Some cf ->
     length (syms (cf_st cf)) = i /\
     exists d, D.sym_loop NC maxv rm (Z.of_nat ns) (firstn (ns - i) (rev (o_syms o))) 0 (D.init_st []) = D.Ok d /\
-              sim2 c2v opp (o_pcc o) ns NC maxv cf d.
+              sim2 c2v opp (o_pcc o) (rev (o_syms o)) ns NC maxv cf d.
 Proof.
   intros Hlen OK Hv FAN Et Cl Hm ns NC.
   pose proof (trace_refines_big_step_ok _ _ _ _ _ _ _ Et) as E.
   destruct (trace_coherent _ _ _ _ _ _ _ Et) as [Lt Co]. fold ns in Lt, Co. split; auto.
-  unfold class_CERL in Cl. apply andb_prop in Cl. destruct Cl as [Cs Cb].
-  destruct (encode_facts_wf c2v opp nf nv niso ndeg o Hlen OK Hv FAN E) as (L & ND & Fk & Ev).
+  unfold class_CERL in Cl. rename Cl into Cs.
+  destruct (encode_facts_wf c2v opp nf nv niso ndeg o Hlen OK Hv FAN E) as (L & ND & Fk & Ev & _).
   destruct (eb_encode_total c2v opp nf nv niso ndeg Hlen OK Hv FAN) as [T1 T2].
   destruct (Nat.eq_dec nf ndeg) as [Eq|Ne]; [rewrite (T1 Eq) in E; discriminate|].
   destruct (T2 Ne) as (o' & E' & OO & _). rewrite E in E'. inversion E'; subst o'. clear E' T1 T2.
   destruct OO as (_ & Rng & Comp & _).
-  rewrite (count_true_0 _ Cb), Nat.add_0_r, rev_length in L. fold ns in L.
+  rewrite rev_length in L. fold ns in L.
   intros i cf Ecf. destruct (Co i cf Ecf) as [C1 C2].
   assert (Hi : i < ns). { rewrite <- Lt. apply nth_error_Some. congruence. }
   assert (Li : length (syms (cf_st cf)) = i). { rewrite C1, rev_length, firstn_length_le; auto. unfold ns in Hi. lia. }
@@ -181,7 +344,7 @@ Proof.
     rewrite forallb_forall in Cs. apply Cs. apply in_rev. eapply nth_error_In; eauto.
   - exists d. rewrite rev_length in Ed. fold ns in Ed. split; auto. unfold sim2. rewrite Li. fold ns.
     split; auto. split. { rewrite C2. f_equal. lia. }
-    split. { apply (Hst (ns - i - 1)). lia. }
+    split. { split; auto. replace (ns - i - 1) with (ns - i - 1) by lia. apply tops_head'. rewrite rev_length. fold ns. lia. }
     auto.
 Qed.
 
@@ -194,5 +357,5 @@ Corollary ebsim_trace_ERL c2v opp nf nv niso ndeg o tr rm maxv :
   forall i cf, nth_error tr i = Some cf ->
     length (syms (cf_st cf)) = i /\
     exists d, D.sym_loop NC maxv rm (Z.of_nat ns) (firstn (ns - i) (rev (o_syms o))) 0 (D.init_st []) = D.Ok d /\
-              sim2 c2v opp (o_pcc o) ns NC maxv cf d.
+              sim2 c2v opp (o_pcc o) (rev (o_syms o)) ns NC maxv cf d.
 Proof. intros. apply (ebsim_trace_CERL c2v opp nf nv niso ndeg); auto. apply class_ERL_CERL; auto. Qed.
